@@ -18,6 +18,7 @@ import (
 
 	"verif/internal/dbgen"
 	"verif/internal/ev"
+	"verif/internal/lite"
 	"verif/internal/mc"
 	"verif/internal/vpager"
 
@@ -32,8 +33,19 @@ func init() {
 		}
 		imgA, imgB := c20Images()
 		img := imgA
-		if args[0] == "B" {
+		switch args[0] {
+		case "B":
 			img = imgB
+		case "C", "D":
+			c, d, err := c20Twins()
+			if err != nil {
+				fmt.Fprintln(os.Stderr, err)
+				return 2
+			}
+			img = c
+			if args[0] == "D" {
+				img = d
+			}
 		}
 		var o int
 		fmt.Sscan(args[1], &o)
@@ -93,6 +105,17 @@ func c20Bodies() []c20Body {
 			}
 			return fmt.Sprint(rows, err, n, err2)
 		}},
+		{"IndexedSelectEq(z,z_k)+PKSelect(zw)", func(e *Env, onRow func()) string {
+			var rows []string
+			err := e.H.IndexedSelectEq("z", "z_k", sqlittle.Key{int64(3)}, func(r sqlittle.Row) { rows = append(rows, RowS(CopyRow(r))); onRow() }, "id", "k", "v")
+			err2 := e.H.PKSelect("zw", sqlittle.Key{int64(2)}, func(r sqlittle.Row) { rows = append(rows, RowS(CopyRow(r))); onRow() }, "k", "s", "v")
+			return fmt.Sprint(rows, err, err2)
+		}},
+		{"IndexedSelect(zw,zw_v)", func(e *Env, onRow func()) string {
+			var rows []string
+			err := e.H.IndexedSelect("zw", "zw_v", func(r sqlittle.Row) { rows = append(rows, RowS(CopyRow(r))); onRow() }, "k", "s")
+			return fmt.Sprint(rows, err)
+		}},
 		{"ScanRange(t2_c)", func(e *Env, onRow func()) string {
 			e.D.RLock()
 			defer e.D.RUnlock()
@@ -151,6 +174,41 @@ func T2Alt(n int) dbgen.Table {
 	}
 	t.Indexes = []dbgen.Index{{Name: "t2_c", SQL: "CREATE INDEX t2_c ON t2 (d)", Cols: []dbgen.IdxCol{{Col: 0}}}}
 	return t
+}
+
+// c20Twins: two databases with byte-identical definitions (a DESC index, a WITHOUT ROWID table with a DESC
+// primary key), one written in SQLite's legacy file format (schema format 3: DESC is ignored) and one in
+// format 4. Anything remembered per definition text across handles gives a wrong answer on one of them.
+func c20Twins() ([]byte, []byte, error) {
+	stmts := []string{
+		"CREATE TABLE z (id INTEGER PRIMARY KEY, k, v)",
+		"CREATE INDEX z_k ON z (k DESC, v)",
+		"CREATE TABLE zw (k, s, v, PRIMARY KEY (k DESC, s)) WITHOUT ROWID",
+		"CREATE INDEX zw_v ON zw (v)",
+		"WITH RECURSIVE n(i) AS (SELECT 1 UNION ALL SELECT i+1 FROM n WHERE i<30) INSERT INTO z SELECT i, i%7, 'v'||i FROM n",
+		"WITH RECURSIVE n(i) AS (SELECT 1 UNION ALL SELECT i+1 FROM n WHERE i<30) INSERT INTO zw SELECT i%6, 's'||i, i FROM n",
+		"ALTER TABLE z ADD COLUMN e DEFAULT 'dflt'",
+	}
+	var out [2][]byte
+	for i, legacy := range []bool{true, false} {
+		l, err := lite.OpenMem()
+		if err != nil {
+			return nil, nil, err
+		}
+		if legacy {
+			l.LegacyFormat(true)
+		}
+		l.MustExec("PRAGMA page_size=512")
+		for _, st := range stmts {
+			if err := l.Exec(st); err != nil {
+				l.Close()
+				return nil, nil, fmt.Errorf("%s: %v", st, err)
+			}
+		}
+		out[i] = l.Serialize()
+		l.Close()
+	}
+	return out[0], out[1], nil
 }
 
 // c20BlobRowid: the rowid of the T1 row (index 10 of 12) that holds a blob and an overflowing text
@@ -253,7 +311,7 @@ func c20Execute(c *mc.Ctx, imgs [][]byte, plan [][]int, bodies []c20Body) ([][]s
 }
 
 func runC20(r *ev.Run) {
-	r.Rule = "interleavings: 2 goroutines (3 thorough), each with its own handle (same image / different images with different page sizes), each running 1-2 operations out of {Select, IndexedSelect, IndexedSelectEq, SelectRowid+Columns, PKSelect+Schema, ScanRange}; scheduling points before every pager call (lock, unlock, page read) and in every row callback; every interleaving with <=2 preemptions (3 thorough); oracle: every operation returns exactly its solo result. pool histories: every sequence of <=5 (6 thorough) database/sql operations on one pool (two result sets open at once, read alternately, failing statements and Exec in between): every result set returns what its query returns alone. handle life cycles on real files: participants {open, select, close}, {open, select, close, close again, select after close}, {open, close, open, select, close} on the same or on different files, steps = whole API calls, every interleaving of two (three thorough) participants: every step returns what it returns alone. race pass (a dynamic detector, not exhaustive): the same bodies on 8 goroutines with their own handles on 2 real files plus a database/sql pool used from 4 goroutines, free-running under -race; any report is a violation. non-trivial = executions with at least one preemption"
+	r.Rule = "interleavings: 2 goroutines (3 thorough), each with its own handle (same image / different images with different page sizes / twin images with identical definitions, one in the legacy file format where DESC is ignored), each running 1-2 operations out of {Select, IndexedSelect, IndexedSelectEq, SelectRowid+Columns, PKSelect+Schema, ScanRange}; scheduling points before every pager call (lock, unlock, page read) and in every row callback; every interleaving with <=2 preemptions (3 thorough); oracle: every operation returns exactly its solo result. pool histories: every sequence of <=5 (6 thorough) database/sql operations on one pool (two result sets open at once, read alternately, failing statements and Exec in between): every result set returns what its query returns alone. handle life cycles on real files: participants {open, select, close}, {open, select, close, close again, select after close}, {open, close, open, select, close} on the same or on different files, steps = whole API calls, every interleaving of two (three thorough) participants: every step returns what it returns alone. race pass (a dynamic detector, not exhaustive): the same bodies on 8 goroutines with their own handles on 2 real files plus a database/sql pool used from 4 goroutines, free-running under -race; any report is a violation. non-trivial = executions with at least one preemption"
 	poolHistories(r, "C20")
 	bodies := c20Bodies()
 	imgA, imgB := c20Images()
@@ -264,7 +322,12 @@ func runC20(r *ev.Run) {
 	if bin == "" {
 		bin, _ = os.Executable()
 	}
-	for _, name := range []string{"A", "B"} {
+	imgC, imgD, terr := c20Twins()
+	if terr != nil {
+		r.Harness("C20 twins: %v", terr)
+		return
+	}
+	for _, name := range []string{"A", "B", "C", "D"} {
 		for o := range bodies {
 			out, err := exec.Command(bin, "c20solo", name, fmt.Sprint(o)).Output()
 			if err != nil {
@@ -297,6 +360,18 @@ func runC20(r *ev.Run) {
 			}
 		}
 	}
+	// the twins: same definitions, legacy format (C) and format 4 (D); the bodies that touch their tables
+	twin := []int{}
+	for i, b := range bodies {
+		if strings.Contains(b.name, "(z") {
+			twin = append(twin, i)
+		}
+	}
+	for _, a := range twin {
+		for _, b := range twin {
+			scens = append(scens, scen{[]string{"C", "D"}, [][]int{{a}, {b}}, bound}, scen{[]string{"D", "C"}, [][]int{{a, b}, {b}}, 2})
+		}
+	}
 	// two operations each
 	for a := 0; a < len(bodies); a += 2 {
 		scens = append(scens, scen{[]string{"A", "B"}, [][]int{{a, (a + 1) % len(bodies)}, {(a + 3) % len(bodies), a}}, 2})
@@ -314,10 +389,15 @@ func runC20(r *ev.Run) {
 		sc := scens[si]
 		imgs := make([][]byte, len(sc.imgs))
 		for i, n := range sc.imgs {
-			if n == "A" {
+			switch n {
+			case "A":
 				imgs[i] = imgA
-			} else {
+			case "B":
 				imgs[i] = imgB
+			case "C":
+				imgs[i] = imgC
+			default:
+				imgs[i] = imgD
 			}
 		}
 		name := fmt.Sprint(sc.imgs, sc.plan)
